@@ -19,7 +19,10 @@ T0, T1 = 0.0, 10.0
 def make_spikes(k, empty, disorder=False):
     if empty:
         return []
-    base = [round(0.6 + 0.83 * k + 1.9 * j + 0.07 * k * j, 6) for j in range(2 + (k % 2))]
+    if k >= 7:       # many trains (forms_many): keep the spikes inside the recording, all trains distinct
+        base = [round(0.31 + 0.27 * k, 6), round(5.2 + 0.13 * k, 6)] + ([round(9.6 + 0.01 * k, 6)] if k % 2 else [])
+    else:
+        base = [round(0.6 + 0.83 * k + 1.9 * j + 0.07 * k * j, 6) for j in range(2 + (k % 2))]
     if disorder:
         base = [base[-1]] + base[:-1] + [base[0]]      # rotated + one repeated spike time
     return base
@@ -396,6 +399,18 @@ def family(name, n, tier):
                     for sel in sels:
                         for form in forms_for(entry, len(sel), kwc):
                             yield (entry, form, tuple([False] * n), sel, kwc, compiled)
+    elif name == 'forms_many':     # many trains (pair counts with different remainders / powers of two), whole list + one rotation
+        full = tuple(range(n))
+        sels = [full, full[1:] + full[:1]]
+        for entry in entries:
+            for kwc in ('default', 'MRTS'):
+                if not kw_allowed(entry, kwc):
+                    continue
+                for compiled in (False, True):
+                    for sel in sels:
+                        for form in forms_for(entry, len(sel), kwc):
+                            if form in ('sublist', 'indices'):
+                                yield (entry, form, tuple([False] * n), sel, kwc, compiled)
     elif name == 'degenerate':     # C18 (+ conventions of C05/C07): every emptiness pattern
         for entry in entries:
             for kwc in ('default', 'max_tau_MRTS', 'interval', 'unnormalized'):
